@@ -61,7 +61,8 @@ def gen_cases(tier, seed):
             idx = list(range(k)); rng.shuffle(idx); cut = rng.randint(1, k - 1)
             parts = [[sum(gset[i] for i in idx[:cut]), sum(gset[i] for i in idx[cut:])]]
         lb = 1 if rng.random() < 0.7 else rng.randint(1, 2)
-        cases.append({"kind": "mgs", "numbers": nums, "total": total, "mult": mult, "wt": wt, "lb": lb, "parts": parts, "rcv": rng.random() < 0.8, "planted": k})
+        cases.append({"kind": "mgs", "numbers": nums, "total": total, "mult": mult, "wt": wt, "lb": lb, "parts": parts, "rcv": rng.random() < 0.8, "planted": k,
+                      "np": (rng.choice(["int64", "int32"]) if wt == "int" else "float64") if rng.random() < 0.1 else None})
     for i in range(n):
         rng = gen.rng_for("C15s", seed, i)
         nu = rng.randint(1, 7); U = list(range(nu)) if rng.random() < 0.7 else [f"e{j}" for j in range(nu)]
@@ -101,6 +102,11 @@ def run_mgs(case, viol, obs):
     wt = int if case["wt"] == "int" else float
     nums = [wt(x) for x in case["numbers"]]; total = wt(case["total"]); mult = case["mult"]
     kw = dict(numbers=list(nums), total=total, weight_type=wt, max_multiplicity=mult, lowerbound=case["lb"], remove_complement_values=case["rcv"], solver_options=dict(SO))
+    if case.get("np"):
+        # the same numbers as numpy scalars (what a caller gets from numpy arrays): same instance, same expected answer
+        import numpy as np
+        npt = {"int64": np.int64, "int32": np.int32, "float64": np.float64}[case["np"]]
+        kw["numbers"] = [npt(x) for x in nums]; kw["total"] = npt(total)
     if case["parts"]:
         kw["partition_constraints"] = [[wt(x) for x in p] for p in case["parts"]]
     desc = f"numbers={nums} total={total} mult={mult} wt={case['wt']} lowerbound={case['lb']} partitions={case['parts']} remove_complement_values={case['rcv']}"
